@@ -24,6 +24,8 @@ REAL = ["msdm.algorithms.laostar (LAOStar, ExplicitStateGraph, SolutionGraph, un
 STUB = ["table MDP behind msdm's model interface", "random.Random stream (SimRandom)", "reference value iteration + exact policy evaluation"]
 ASSUMPTIONS = ["<= 7 states; tolerance 1e-6 relative between LAO*'s linear solves and the reference", "every state offers at least one action (C01's domain)",
                "max_lao_star_iterations=10^4: hitting it on <= 8 states counts as failing to report convergence"]
+from sim.models import SEAM_RANGES  # noqa: E402
+ASSUMPTIONS = ASSUMPTIONS + [SEAM_RANGES]
 TOL = 1e-6
 
 
